@@ -5,6 +5,15 @@ V = os.path.dirname(os.path.dirname(os.path.abspath(__file__)))
 
 # id -> (category, level text, level note, technique, design ref)
 CLAIMED = {
+ "C02": ("other",
+  "Table/shape agreement over every operator closure (425 run-time closures, 34 operator generators, 15 constant folders): operator token -> action -> generator -> Go operator, kind class <-> accessor/extractor/setter in every kind case (with the effective kind set of predicate-ordered cases), operand order, branch polarity, constant operands materialised through the accessor of their kind. Because the arithmetic is done by Go's own operator on the 64-bit widening and reflect setters truncate, wrap-around/truncation/sign extension/rounding follow once these facts hold; nothing is evaluated. Not decided: the operator type rules of typecheck.go, reflect.Value.Convert, string conversions, rewrites of the operator tree done by cfg (e.g. folding !(a<b)), result-slot allocation.",
+  "Trusted: Go's operators, reflect accessors/setters. A seeded change rewriting !(a<b) into a>=b in cfg (NaN) is NOT detected (documented in DESIGN.md).",
+  "exhaustiveness + sibling table agreement over syntax trees resolved with go/types (custom lint)", "DESIGN.md §2 C02"),
+ "C03": ("other",
+  "Structural clauses of constant handling: folder tokens agree with their action; go/constant accessors agree with the reflect kind of their case and both parts of complex constants are examined; the integer width table equals 8*sizeof per kind and is complete; signed kinds are bounded with width-1 bits and cannot reach the unsigned full-width comparison; iota bookkeeping pairing at both sites; literals are materialised by go/constant's own parser. Arbitrary-precision results, default types and rounding are go/constant's and are trusted; 'rejected instead of evaluated' is decided only through the representability clauses.",
+  "Defect D2 (signed bound) was found by R03.4 and repaired. Width table checked for the host configuration only.",
+  "table agreement + go/cfg reachability + sibling cross-check (custom go/types lint)", "DESIGN.md §2 C03"),
+
  "C06": ("other",
   "Structural clauses of panic/defer/recover handling decided on the call graph, go/cfg and SSA of package interp: every path from an exported entry point (and from each goroutine it starts) to the execution loop passes a converting, non-re-panicking recover; defer records are prepended one at a time and consumed once in order; recorded argument values are copies made when the defer statement executes; the unwinding function recovers, runs the records, then re-panics conditionally; recover() reads and clears the caller frame's panic value; converting recovers return Panic{Value: recovered}. Necessary conditions only: which faults reflect raises, and recover's 'called directly' rule at run time, are not decided.",
   "Trusted: go/ssa, go/cfg, reflect raising ordinary panics. Dynamic calls through fields/slices are not followed (the execution loop is the sink). Defects D3 and D6 were found by these rules and repaired ('fix:' commits).",
